@@ -341,7 +341,39 @@ def es_vendor_responses(acc: Acc):
     acc.cls("es_vendor_commands", len(seen))
 
 
+def history_job(job):
+    """A conforming answer must be accepted whatever an EARLIER request on the same protocol object received: here the
+    earlier request got a first fragment followed by the complete frame, so that a fragment of every possible 'missing'
+    length is left behind; the request under test is then answered promptly with conforming frames of every short length."""
+    transport, keep = job
+    acc = Acc()
+    framing = {"udp": "rtu", "tcp": "tcp"}[transport]
+    long_cmd = ("read", 35100, 8)
+    Flong, _ = conforming(framing, "read", 0xF7, 35100, 8, _payload("pattern", 16, 3))
+    hdr = 5 if transport == "udp" else 9
+    for cut in range(hdr, len(Flong)):
+        for count in range(1, 9):
+            payload = _payload(("ff", "pattern", "markers")[count % 3], 2 * count, count)
+            Fshort, _ = conforming(framing, "read", 0xF7, 36000, count, payload)
+            steps = [{"op": "request", "script": [["multi", [[2, Flong[:cut]], [4, Flong]]]], "command": long_cmd},
+                     {"op": "request", "script": [["raw", 1, Fshort]], "command": ("read", 36000, count)}]
+            case = {"history": True, "transport": transport, "keep": keep, "cut": cut, "count": count}
+            acc.case()
+            acc.nontrivial("history", transport, keep, cut, count)
+            results, world, errors, protocol = netcase.run_sequence({"transport": transport, "keep": keep, "T": 1.0, "R": 0, "latency": 0, "steps": steps})
+            second = results[-1]
+            if results[0].kind != "ok":
+                continue
+            if second.kind != "ok" or len(second.tx) != 1 or second.result.raw_data != Fshort:
+                acc.fail("C02|%s|read|refused|after-fragmented-request" % framing,
+                         "conforming %d-byte answer to the second request refused (%s, %d transmissions) after the first request had left a "
+                         "fragment with %d missing bytes behind" % (len(Fshort), second.kind, len(second.tx), len(Flong) - cut), case)
+    return acc
+
+
 def run(ctx):
+    ctx.shard(history_job, [(t, k) for t in ("udp", "tcp") for k in (False, True)],
+              "conforming answers after an earlier request that left a fragment of every length behind (same protocol object)")
     es_vendor_responses(ctx.acc)
     ctx.engines.append("every AA55 command object built by the ES class vs. its conforming acknowledgement")
     jobs = [("read", lo, min(126, lo + 8)) for lo in range(1, 126, 8)]
@@ -358,6 +390,9 @@ def run(ctx):
 
 
 def replay(ctx, case):
+    if case.get("history"):
+        ctx.acc.merge(history_job((case["transport"], case["keep"])))
+        return
     if case.get("es_vendor"):
         es_vendor_responses(ctx.acc)
         return
